@@ -72,6 +72,14 @@ OPTIONS: Dict[str, Dict[str, Tuple[str, Any]]] = {
 }
 COMMON_OPTIONS = {"fixing_duration": ("int", 2), "listen_on_ports": ("ports", NODEFAULT)}
 
+# NMNEConfig field defaults (class docstrings in simulator/network/nmne.py; the configuration docs do not describe them)
+NMNE_DEFAULTS = {"capture_nmne": False, "nmne_capture_keywords": [], "capture_by_direction": True,
+                 "capture_by_ip_address": False, "capture_by_protocol": False, "capture_by_port": False,
+                 "capture_by_keyword": False}
+# airspace.py: FREQ_WIFI_2_4 / FREQ_WIFI_5 data_rate_bps (docs/source/simulation_components/network/airspace.rst names
+# the two frequencies; an override is in Mbps = bps / 1024^2)
+AIRSPACE_DEFAULT_BPS = {"WIFI_2_4": 100_000_000.0, "WIFI_5": 500_000_000.0}
+
 # keys of the ``defaults:`` block (the loader reads it at top level; the shipped UC7 files write it under simulation:)
 DEFAULTS_KEYS = ("node_start_up_duration", "node_shut_down_duration", "node_scan_duration", "folder_scan_duration",
                  "folder_restore_duration", "service_fix_duration", "service_restart_duration")
@@ -96,6 +104,7 @@ class Inventory:
         self.prov: Dict[tuple, str] = {}  # key -> "defaults:<where>:<defaults key>" / "explicit-over-defaults:<where>:<key>"
         self.files: List[tuple] = []  # (host, folder, acceptable names, size or None, type or None)
         self.free_suffixes: List[str] = []  # hostnames created by node sets end with _<lan_name>
+        self.nodesets: List[Dict] = []  # wiring facts of each node set (checked on the built link graph)
 
     def _free_host(self, h) -> bool:
         return isinstance(h, str) and any(h.endswith(s) for s in self.free_suffixes)
@@ -361,6 +370,18 @@ def derive(cfg: Dict) -> Inventory:
         may.add(("file", h))
         may.add(("folderdur", h))
 
+    # ---- NMNE capture configuration the built interfaces use: declared, or the default when the file is silent
+    declared_nmne = net.get("nmne_config") or {}
+    for field, default in NMNE_DEFAULTS.items():
+        v = declared_nmne.get(field, default)
+        must[("nmne", field)] = [str(x) for x in v] if isinstance(v, list) else bool(v)
+    must[("nmne-obs",)] = bool(declared_nmne.get("capture_nmne", False))
+    # ---- airspace capacity per frequency (Mbps): declared override, else the frequency's own capacity
+    over = (net.get("airspace") or {}).get("frequency_max_capacity_mbps") or {}
+    for freq, bps in AIRSPACE_DEFAULT_BPS.items():
+        must[("airspace", freq)] = round(float(over[freq]) if freq in over else bps / (1024.0 * 1024.0), 6)
+    may.add(("airspace",))
+
     # ---- links
     for l in net.get("links") or []:
         k = link_key(l["endpoint_a_hostname"], l["endpoint_a_port"], l["endpoint_b_hostname"], l["endpoint_b_port"])
@@ -412,7 +433,20 @@ def office_lan(inv: Inventory, ns: Dict):
         inv.must[("node", f"router_{name}")] = "router"
         inv.must[("if", f"router_{name}", 1)] = (gw, DEFAULT_MASK)
     inv.notes["node_set_bw"] = bw
-    # switches, their names and the exact wiring are an implementation detail of the adder: allowed, not required
+    # Switch names and port numbers are an implementation detail of the adder (allowed, not required). What the
+    # documentation and the adder's contract state, for ANY number of PCs: every PC is connected to a switch ("enough
+    # switches such that all hosts can be connected to a switch", 24-port switches with one port reserved for the
+    # uplink => ceil(num_pcs / 23) edge switches, joined by a core switch when there is more than one), the optional
+    # router "is added to connect the switches together" and is every PC's default gateway, and `bandwidth` is the
+    # "data bandwidth to the LAN" => EVERY link the node set creates carries it (PC links, edge-switch uplinks to the
+    # router or to the core switch, and the router uplink).
+    n_edge = -(-n // 23)
+    inv.nodesets.append({
+        "name": name, "suffix": f"_{name}", "bandwidth": bw, "pcs": [f"pc_{i}_{name}" for i in range(1, n + 1)],
+        "router": f"router_{name}" if ns.get("include_router", True) else None,
+        "min_switches": n_edge + (1 if n_edge > 1 else 0),
+        "n_links_min": n + (n_edge if (n_edge > 1 or ns.get("include_router", True)) else 0),
+    })
     inv.free_suffixes.append(f"_{name}")
 
 
